@@ -10,7 +10,7 @@ RULE = ("X-chunk: create_binary_event_files on files of n = 0..40 events x event
         "for n <= 16, pairs giving >= 11 chunks, files with a frequency column) x n_jobs 1..4, with per-job delays "
         "installed before the pool forks so that conversion jobs finish in a permuted order; the returned number, the "
         "set of chunk files and every chunk's bytes are compared with model 401 (= C04_job_file / C04_reports_all_events). "
-        "ndl.ndl is run on the same events with different chunk sizes and must return the exact rational weights of the "
+        "ndl.ndl is run on the same events (1, 2 and 7..40 of them) with different chunk sizes and must return the exact rational weights of the "
         "model for each of them (order sensitive event sequences, >= 12 chunks included) and the right number_events. "
         "Every call runs in a killable subprocess under a 120 s deadline (normal duration 0.1-2 s); a missed deadline is "
         "confirmed by an isolated 360 s re-run before it is reported. A case is non-trivial when it has >= 2 chunks; "
@@ -148,8 +148,8 @@ def run(ctx):
 
     # ---- weights do not depend on the chunk size ------------------------------------------
     sets = []
-    for k in range(6 if ctx.thorough else 3):
-        n = [24, 9, 14, 30, 7, 40][k]
+    for k in range(8 if ctx.thorough else 5):
+        n = [24, 1, 2, 9, 14, 30, 7, 40][k]          # the smallest files too: one event, two events
         es = rwlib.gen_events(rng, n, n_cue_alpha=5, n_out_alpha=3, max_cues=3, max_outs=2, dups=False,
                               outcome_less=False, file_form=True)
         sets.append({"es": es, "p": rwlib.gen_params(rng), "pol": 0})
